@@ -661,6 +661,21 @@ static int part_b(void)
 		}
 		vx_count("b_sweep_pairs_done", 1);
 	}
+	/* "arbitrary white space": every kind of C white space other than blank and tab as a separator, in every position */
+	{
+		static const char *xw[] = { "\r", "\v", "\f", " \r", "\r ", "\t\f", "\r\v", "\f\r\v" };
+		static const char *xfmt[] = { "%s%s%s\n", "%s%s0x%s\n", "%.0s%s%s\n", "10:%.0s%s%s\n", "10: %s%s%s\n", "%s%s%.0s\n", "%s%s%s\n0a\n", "F9\n%s%s%s\n", "%s%s%s%2$s%1$s\n" };
+		static const char *xv[] = { "0a", "F9" };
+		int k = 0;
+		for (unsigned w = 0; w < sizeof(xw) / sizeof(xw[0]); w++)
+			for (unsigned f = 0; f < sizeof(xfmt) / sizeof(xfmt[0]); f++)
+				for (int a = 0; a < 2; a++) for (int b = 0; b < 2; b++, k++) {
+					if (!vx_mine((uint64_t)k)) continue;
+					c.n = sprintf((char *)c.text, xfmt[f], xv[a], xw[w], xv[b]);
+					b_run(&c, &r);
+					vx_count("b_texts_with_cr_vt_ff_separators", 1);
+				}
+	}
 	/* all single lines and all ordered pairs of lines from the pool */
 	for (int i = 0; i < nlines_pool; i++) {
 		if (!vx_mine((uint64_t)i)) continue;
